@@ -139,7 +139,8 @@ def run_case(pos_i, path, cash, reward, script, tick=False):
         except Exception as ex:
             out.append(("%s: valuation with raise_if_broke=False raised %r" % (where, ex), None))
             return
-        if abs(float(raw) - float(want)) > 1e-9 * max(1.0, abs(float(want))):
+        if (float(raw) > 0) != (want > 0):
+            # only the SIGN matters here (the amount is C01's subject): an insolvent account must not be reported solvent
             out.append(("%s: valuation returns %r but the account (recorded trades at current quotes) is worth %s" % (where, raw, float(want)), None))
         elif want <= 0:
             try:
@@ -244,8 +245,8 @@ def run_case(pos_i, path, cash, reward, script, tick=False):
                 ended = True
             else:
                 got = env.broker.net_liquidation_value(False)
-                if abs(float(got) - float(nlv_end)) > 1e-9 * max(1.0, abs(float(nlv_end))):
-                    out.append(("NLV after step %d is %r, ledger %s" % (k, got, float(nlv_end)), None))
+                if not float(got) > 0:
+                    out.append(("NLV after step %d is %r, ledger %s > 0" % (k, got, float(nlv_end)), None))
                 if ret[2] != (k + 1 >= NB):
                     out.append(("step %d returned done=%r with %d bars" % (k, ret[2], NB), None))
                 # valuation API
